@@ -587,7 +587,11 @@ class RG:
         if w == "tr":
             return N("tr", (T((n, n)),), None, (), {})
         if w == "det":
-            m = rng.choice([1, 2, 2, 3, 3])
+            m = rng.choice([1, 2, 2, 3, 3, 4])
+            if m == 4 and rng.random() < 0.5:
+                # one entry of the inverse of a 4 x 4 matrix (the largest size the expansions know), kept away from singular
+                a = m_add("add", T((4, 4)), m_mul(lit(rng.choice([8, -9])), N("identity", (), 4, (4, 4), {}, real=True)))
+                return m_getitem(N("inv", (a,), None, (4, 4), {}), (("int", rng.randrange(4)), ("int", rng.randrange(4))))
             return N("det", (T((m, m)),), None, (), {})
         if w == "pow2":
             return N("pow", (T(rng.choice([(n,), (2, 2)])), lit(2)), None, (), {})
@@ -742,6 +746,13 @@ class RG:
                 run = [q for q, c in enumerate(comp) if c[0] == "slice"]
                 if run and run == list(range(run[0], run[0] + len(run))):
                     comp = comp[: run[0]] + [("ell",)] + comp[run[-1] + 1:]
+                elif run:
+                    # the first run of slices becomes the ellipsis, later slices stay written out:  T[..., 0, :]
+                    q0 = run[0]
+                    q1 = q0
+                    while q1 + 1 in run:
+                        q1 += 1
+                    comp = comp[:q0] + [("ell",)] + comp[q1 + 1:]
             return m_getitem(self.tensor(tuple(big), depth - 1, dlev, smooth), tuple(comp))
         if op == "rowcombo":
             nm = rng.choice(NAMES)
